@@ -639,9 +639,9 @@ def emit(m, r):
     out = ["(* GENERATED by tools/py2v/gen_madx.py from xdeps/madxutils.py and xdeps/refs.py - do not edit *)",
            "From Coq Require Import String List.", "From XD Require Import model.MadxSyn.", "Import ListNotations.",
            "Open Scope string_scope.", ""]
-    out.append("Definition grammar : grammar :=\n  " + cgrammar(m["grammar"]) + ".\n")
+    out.append("Definition madx_grammar : MadxSyn.grammar :=\n  " + cgrammar(m["grammar"]) + ".\n")
     out.append("(* the same text after grammar.replace(...) of attribute mode *)")
-    out.append("Definition grammar_attr : grammar :=\n  " + cgrammar(m["grammar_attr"]) + ".\n")
+    out.append("Definition madx_grammar_attr : MadxSyn.grammar :=\n  " + cgrammar(m["grammar_attr"]) + ".\n")
     cbs = [f"({cs(k)}, {ccallback(v)})" for k, v in m["callbacks"] if v["kind"] != "assign"]
     out.append("Definition callbacks : list (string * callback) :=\n  " + clist(cbs).replace("; (", ";\n   (") + ".\n")
     c = m["cfg"]
@@ -651,7 +651,7 @@ def emit(m, r):
     e = m["env"]
     out.append("Definition env_cfg : madx_env_cfg :=\n  mk_envcfg " + clist([f"({cs(a)}, {cs(b)}, {cs(l)})" for a, b, l in e["refs"]])
                + " " + clist([cs(x) for x in e["madexpr"]]) + " " + clist([cs(x) for x in e["madeval"]]) + ".\n")
-    out.append("Definition ref_tables : ref_tables :=\n  mk_reftab\n   "
+    out.append("Definition ref_tabs : MadxSyn.ref_tables :=\n  mk_reftab\n   "
                + clist([f"({cs(d)}, ({cs(k)}, {cb(s)}))" for d, k, s in r["dunder_bin"]]) + "\n   "
                + clist([f"({cs(d)}, {cs(k)})" for d, k in r["dunder_un"]]) + "\n   "
                + clist([f"({cs(d)}, ({cs(k)}, {cb(g)}))" for d, k, g in r["access"]]) + "\n   "
